@@ -169,12 +169,15 @@ def cases(tier):
     for how in ("forward", "rebuild_op", "rebuild_add", "reversed"):
         out.append(dict(name=f"Date pairs {how}", fn=dates, params=dict(how=how, ylo=dw[0], yhi=dw[1]),
                         bounds=f"every ordered pair of Dates in years {dw[0]}..{dw[1]}"))
-    for kind in ("naive", "utc", "fixed", "zone"):
+    for kind in (("naive", "utc", "zone") if tier == "quick" else ("naive", "utc", "fixed", "zone")):
         hows = ("components", "rebuild_op", "rebuild_add") if tier != "quick" else ("components",)
         for how in hows:
             w = (2000, 2000) if (kind == "zone" and tier == "quick") else win
-            out.append(dict(name=f"DateTime pairs {kind} {how}", fn=datetimes, params=dict(kind=kind, how=how, ylo=w[0], yhi=w[1]),
-                            bounds=f"every ordered pair of {kind} DateTimes (same offset) in years {w[0]}..{w[1]}, any time of day"))
+            coarse = (kind == "zone" and tier == "quick")     # quick: zone pairs on whole hours (the borrow chain is decided on utc/naive)
+            out.append(dict(name=f"DateTime pairs {kind} {how}" + (" (whole hours)" if coarse else ""), fn=datetimes,
+                            params=dict(kind=kind, how=how, ylo=w[0], yhi=w[1], coarse=coarse),
+                            bounds=f"every ordered pair of {kind} DateTimes (same offset) in years {w[0]}..{w[1]}, "
+                                   + ("whole hours" if coarse else "any time of day")))
     if tier == "quick":
         for how in ("rebuild_op", "rebuild_add"):
             out.append(dict(name=f"DateTime pairs utc {how} (whole hours)", fn=datetimes,
